@@ -2,6 +2,7 @@
     if std::env::var("VERIF_REPLAY_GRID").is_ok() {
         // native witness search over a grid of boundary values (odometer over the draws)
         std::panic::set_hook(Box::new(|_| {}));
+        let panic_only = std::env::var("VERIF_REPLAY_PANIC_ONLY").is_ok();
         let budget: u64 = std::env::var("VERIF_REPLAY_GRID").ok().and_then(|v| v.parse().ok()).unwrap_or(3_000_000);
         let mut idx: Vec<usize> = Vec::new();
         let mut radix: Vec<usize> = Vec::new();
@@ -20,6 +21,7 @@
             let bad = match &res {
                 Ok(Ok(())) => None,
                 Ok(Err(m)) if m == "ASSUMPTION-NOT-MET" => None,
+                Ok(Err(_)) if panic_only => None,
                 Ok(Err(m)) => Some(m.clone()),
                 Err(_) => Some("PANIC".to_string()),
             };
